@@ -53,6 +53,9 @@ class TDModRedfieldRelaxationTensor(RelaxationTensor):
 
     def initialize(self):
         
+        # the data calculated below are not secular, whatever was done
+        # to the data they replace
+        self.is_secular = False
         #
         # Tensor data
         #
